@@ -47,6 +47,7 @@ def controller_sites(ctx: Ctx) -> list[Site]:
         for fi in mod.funcs.values():
             if fi.njit is not None or fi.parent is not None:
                 continue
+            fi = _unroll_tables(fi)
             for n in ast.walk(fi.node):
                 if not isinstance(n, ast.Call):
                     continue
@@ -75,6 +76,93 @@ def controller_sites(ctx: Ctx) -> list[Site]:
                         None))),
                     kern))
     return sites
+
+
+def _unroll_tables(fi: FuncInfo) -> FuncInfo:
+    """A table-driven factory
+
+        if c1: T = ((a1, b1), (a2, b2))  elif c2: T = (...)
+        return tuple(Controller(x, K, y) for x, y in T)
+
+    is read as if each branch built its controllers itself: every literal
+    row of T becomes `Controller(...)` with the loop variables replaced by
+    the row's entries and with the constants assigned in the same branch
+    before the table filled in.  (A copy; anything else is left alone.)"""
+    import copy
+    import dataclasses
+    comp = None
+    for n in ast.walk(fi.node):
+        if isinstance(n, (ast.GeneratorExp, ast.ListComp)) and len(
+                n.generators) == 1 and not n.generators[0].ifs and \
+                isinstance(n.generators[0].iter, ast.Name) and isinstance(
+                n.elt, ast.Call):
+            comp = n
+    if comp is None:
+        return fi
+    tname = comp.generators[0].iter.id
+    tgt = comp.generators[0].target
+    lvars = [t.id for t in tgt.elts] if isinstance(
+        tgt, ast.Tuple) and all(isinstance(t, ast.Name) for t in tgt.elts) \
+        else ([tgt.id] if isinstance(tgt, ast.Name) else None)
+    if lvars is None:
+        return fi
+    node = copy.deepcopy(fi.node)
+    changed = False
+
+    class Sub(ast.NodeTransformer):
+        def __init__(self, m: dict[str, ast.expr]) -> None:
+            self.m = m
+
+        def visit_Name(self, n: ast.Name) -> ast.AST:
+            if isinstance(n.ctx, ast.Load) and n.id in self.m:
+                return copy.deepcopy(self.m[n.id])
+            return n
+
+    def blocks(n: ast.AST) -> list[list[ast.stmt]]:
+        out = []
+        for fld in ("body", "orelse", "finalbody"):
+            b = getattr(n, fld, None)
+            if isinstance(b, list) and b and isinstance(b[0], ast.stmt):
+                out.append(b)
+                for st in b:
+                    out += blocks(st)
+        return out
+    for blk in blocks(node):
+        consts: dict[str, ast.expr] = {}
+        for st in blk:
+            tg = st.targets[0] if isinstance(st, ast.Assign) and len(
+                st.targets) == 1 else (st.target if isinstance(
+                    st, ast.AnnAssign) else None)
+            val = getattr(st, "value", None)
+            if isinstance(tg, ast.Name) and isinstance(val, ast.Constant):
+                consts[tg.id] = val
+            if isinstance(tg, ast.Name) and tg.id == tname and isinstance(
+                    val, (ast.Tuple, ast.List)) and val.elts and all(
+                    isinstance(r, (ast.Tuple, ast.List)) and len(
+                        r.elts) == len(lvars) for r in val.elts):
+                rows = []
+                for r in val.elts:
+                    m = dict(consts)
+                    m.update(zip(lvars, r.elts))
+                    c = Sub(m).visit(copy.deepcopy(comp.elt))
+                    for x in ast.walk(c):
+                        ast.copy_location(x, r)
+                    rows.append(c)
+                st.value = ast.copy_location(
+                    ast.Tuple(elts=rows, ctx=ast.Load()), val)
+                changed = True
+    if not changed:
+        return fi
+    # the comprehension itself no longer constructs anything
+    class Drop(ast.NodeTransformer):
+        def visit_GeneratorExp(self, n: ast.GeneratorExp) -> ast.AST:
+            if ast.dump(n) == ast.dump(comp):
+                return ast.copy_location(
+                    ast.Name(id=tname, ctx=ast.Load()), n)
+            return self.generic_visit(n)
+        visit_ListComp = visit_GeneratorExp      # type: ignore
+    node = ast.fix_missing_locations(Drop().visit(node))
+    return dataclasses.replace(fi, node=node)
 
 
 def _cell_index(a: tuple) -> int | None:
